@@ -77,9 +77,13 @@ impl<T: Qcow2IoOps> Qcow2Dev<T> {
             return Ok(0);
         }
 
-        t.set_offset(Some(off));
+        // the table counts as loaded only once it has been read: a failed
+        // load has to be repeated by the next qcow2_prep_io()
         let buf = unsafe { std::slice::from_raw_parts_mut(t.as_mut_ptr(), t.byte_size()) };
-        self.call_read(off, buf).await
+        let res = self.call_read(off, buf).await?;
+        t.set_offset(Some(off));
+
+        Ok(res)
     }
 
     pub(crate) async fn load_refcount_table(&self) -> Qcow2Result<usize> {
